@@ -368,22 +368,53 @@ Proof. discriminate. Qed.
 Lemma land_dir_bits (a : N) : N.land (N.land a (511 + MODE_STICKY)) FILE_MODE_MASK = N.land a (511 + MODE_STICKY).
 Proof. rewrite <- N.land_assoc. reflexivity. Qed.
 
-(* the parent of a new entry has its set-group-id bit clear (inheritance is a listed deviation) *)
-Definition no_setgid_parent (s : fsys) (sv : sview) (cs : list str) : Prop :=
-  forall par name md, klookup s sv false false (abs_path cs) = WNeg par name md ->
-                      is_setgid (m_mode (meta_of (f_heap s) par)) = false.
+(* set-group-id inheritance: createDir / createFile / createSymlink allocate exactly the node inode_init_owner
+   prescribes (the group of a set-group-id directory, and the bit itself for a new directory) *)
+Lemma land_setgid (x : N) : N.land x MODE_SETGID = if has x MODE_SETGID then MODE_SETGID else 0%N.
+Proof.
+  unfold has. destruct (N.eqb_spec (N.land x MODE_SETGID) 0) as [E|E]; cbn [negb]; [exact E|].
+  apply N.bits_inj. intros k. rewrite N.land_spec. change MODE_SETGID with (2 ^ 22)%N. rewrite N.pow2_bits_eqb.
+  destruct (N.eqb_spec 22 k) as [<-|Hk]; [|apply andb_false_r]. rewrite andb_true_r.
+  destruct (N.testbit x 22) eqn:Hb; [reflexivity|]. exfalso. apply E. apply N.bits_inj. intros j.
+  rewrite N.land_spec, N.bits_0. change MODE_SETGID with (2 ^ 22)%N. rewrite N.pow2_bits_eqb.
+  destruct (N.eqb_spec 22 j) as [<-|_]; [rewrite Hb; reflexivity|apply andb_false_r].
+Qed.
+
+Lemma create_dir_alloc (s : fsys) (v : view) (par : nat) (name : str) (perm : N) :
+  v_os v = Linux ->
+  create_dir s v par name perm
+  = alloc_child s par name (NDir [] (kmeta (f_heap s) par v MODE_DIR (N.land perm (511 + MODE_STICKY)) true)) false.
+Proof.
+  intros Hos. unfold create_dir, alloc_child, kmeta, new_dir_meta, new_meta, new_gid, new_owner_gid, is_setgid. rewrite Hos.
+  cbn [dir_mode andb m_mode m_uid m_gid]. rewrite land_dir_bits, land_setgid.
+  destruct (has (m_mode (meta_of (f_heap s) par)) MODE_SETGID); [rewrite N.lor_assoc|rewrite N.lor_0_r]; reflexivity.
+Qed.
+
+Lemma create_file_alloc (s : fsys) (v : view) (par : nat) (name : str) (perm : N) :
+  v_os v = Linux ->
+  create_file s v par name perm
+  = alloc_child s par name (NFile [] 1 (f_last_id s + 1) (kmeta (f_heap s) par v 0 (N.land perm FILE_MODE_MASK) false)) true.
+Proof.
+  intros Hos. unfold create_file, alloc_child, kmeta, new_meta, new_gid, new_owner_gid, is_setgid. rewrite Hos. reflexivity.
+Qed.
+
+Lemma create_symlink_alloc (s : fsys) (v : view) (par : nat) (name t : str) :
+  create_symlink s v par name t
+  = fst (alloc_child s par name (NSym t {| m_mode := N.lor MODE_SYMLINK 511; m_uid := us_uid (v_user v);
+                                           m_gid := new_owner_gid (f_heap s) par (v_user v) |}) false).
+Proof. reflexivity. Qed.
 
 (* ---- Mkdir ----------------------------------------------------------------------------------------------- *)
 Theorem step_mkdir (s : fsys) (sv : sview) (w : list str) (cl : str) (perm : N) :
-  step_hyps s sv -> path_ok s sv SlLstat (w ++ [cl]) -> no_setgid_parent s sv (w ++ [cl]) ->
+  step_hyps s sv -> path_ok s sv SlLstat (w ++ [cl]) ->
   let p := abs_path (w ++ [cl]) in
   (fst (mkdir s (sv_view sv) p perm), proj_res Linux (snd (mkdir s (sv_view sv) p perm))) = k_mkdir s sv p perm.
 Proof.
-  intros H Hp Hsg p. pose proof (resolve s sv SlLstat (w ++ [cl]) H Hp) as R.
+  intros H Hp p. pose proof (resolve s sv SlLstat (w ++ [cl]) H Hp) as R.
   destruct Hp as (Hg & Hk1 & Hnf). change (follow_of SlLstat) with false in R, Hk1. change (precise_of SlLstat) with true in R.
   destruct (klookup_pm s sv false w cl Hg Hk1) as (Hkn & Hkg & Hpm).
   unfold p. rewrite (mkdir_nonempty s (sv_view sv) _ perm (abs_path_nonempty _)). cbv zeta.
-  unfold k_mkdir. rewrite Hpm. unfold no_setgid_parent in Hsg.
+  unfold k_mkdir. rewrite Hpm.
   pose proof (klookup_final s sv false (w ++ [cl]) Hg) as Hfin.
   destruct (klookup s sv false false (abs_path (w ++ [cl]))) as [par kind name n|par name md| |e] eqn:HK; cbn [walk_rel] in R.
   - destruct (Hkn _ _ _ _ eq_refl) as (-> & ->). destruct Hfin as (F1 & _). destruct R as (R1 & _).
@@ -393,8 +424,7 @@ Proof.
     rewrite R1, V2, R3, V1, F1. cbn [is_not_exist negb orb].
     rewrite (admin_perm_on s sv par _ H) by (apply node_is_dir_valid; exact F2).
     rewrite (admin_kperm s sv par 3 H) by (apply node_is_dir_valid; exact F2). cbn [negb].
-    unfold create_dir, alloc_child, kmeta, new_meta, new_owner_gid. rewrite (Hsg _ _ _ eq_refl), (sh_os _ _ H). cbn [fst dir_mode andb].
-    rewrite land_dir_bits. reflexivity.
+    rewrite create_dir_alloc by exact (sh_os _ _ H). reflexivity.
   - destruct R.
   - destruct R as (R1 & R2). destruct (werr_cases _ _ R1 Hnf) as (Hc & ->).
     destruct Hc as [Hc|[Hc|[Hc|Hc]]]; rewrite Hc in *; try reflexivity.
@@ -403,15 +433,15 @@ Qed.
 
 (* ---- Symlink: the implementation stores Clean(target); the specification world is given Clean(target) ----- *)
 Theorem step_symlink (s : fsys) (sv : sview) (w : list str) (cl : str) (t : str) :
-  step_hyps s sv -> path_ok s sv SlLstat (w ++ [cl]) -> no_setgid_parent s sv (w ++ [cl]) ->
+  step_hyps s sv -> path_ok s sv SlLstat (w ++ [cl]) ->
   let p := abs_path (w ++ [cl]) in
   (fst (symlink s (sv_view sv) t p), proj_res Linux (snd (symlink s (sv_view sv) t p)))
   = k_symlink s sv (clean Linux t) p.
 Proof.
-  intros H Hp Hsg p. pose proof (resolve s sv SlLstat (w ++ [cl]) H Hp) as R.
+  intros H Hp p. pose proof (resolve s sv SlLstat (w ++ [cl]) H Hp) as R.
   destruct Hp as (Hg & Hk1 & Hnf). change (follow_of SlLstat) with false in R, Hk1. change (precise_of SlLstat) with true in R.
   destruct (klookup_pm s sv false w cl Hg Hk1) as (Hkn & Hkg & Hpm).
-  unfold p, symlink, k_symlink. rewrite Hpm. unfold no_setgid_parent in Hsg.
+  unfold p, symlink, k_symlink. rewrite Hpm.
   pose proof (klookup_final s sv false (w ++ [cl]) Hg) as Hfin.
   destruct (clean Linux t) as [|t0 t'] eqn:Et; [exfalso; exact (clean_nonempty t Et)|]. rewrite <- Et. clear Et t0 t'.
   destruct (klookup s sv false false (abs_path (w ++ [cl]))) as [par kind name n|par name md| |e] eqn:HK; cbn [walk_rel] in R.
@@ -422,7 +452,7 @@ Proof.
     rewrite R1, V2, R3, V1, F1. cbn [is_not_exist negb orb].
     rewrite (admin_perm_on s sv par _ H) by (apply node_is_dir_valid; exact F2).
     rewrite (admin_kperm s sv par 3 H) by (apply node_is_dir_valid; exact F2). cbn [negb].
-    unfold create_symlink, alloc_child, new_owner_gid. rewrite (Hsg _ _ _ eq_refl), (sh_os _ _ H). reflexivity.
+    rewrite create_symlink_alloc, (sh_os _ _ H). reflexivity.
   - destruct R.
   - destruct R as (R1 & R2). destruct (werr_cases _ _ R1 Hnf) as (Hc & ->).
     destruct Hc as [Hc|[Hc|[Hc|Hc]]]; rewrite Hc in *; try reflexivity.
@@ -907,10 +937,6 @@ Lemma klookup_not_parent (s : fsys) (sv : sview) (follow : bool) (p : str) a b c
   klookup s sv false follow p <> WParent a b c d.
 Proof. unfold klookup. destruct p; [discriminate|]. apply kwalk_not_parent. Qed.
 
-Definition no_setgid_parent_follow (s : fsys) (sv : sview) (cs : list str) : Prop :=
-  forall par name md, klookup s sv false true (abs_path cs) = WNeg par name md ->
-                      is_setgid (m_mode (meta_of (f_heap s) par)) = false.
-
 Lemma write_file_ok (s s1 : fsys) (v : view) (name : str) (data : list N) (perm : N) (c : nat) (k : Z) (i : N) (m : meta) :
   name <> [] -> get (f_heap s1) c = Some (NFile [] k i m) ->
   (let '(s2, _, r) := f_write s1 v (new_handle c 0 name 0 82) data in
@@ -929,7 +955,6 @@ Section WriteFile.
   Hypothesis H : step_hyps s sv.
   Hypothesis Hp0 : path_ok s sv SlLstat (w ++ [cl]).
   Hypothesis Hp : path_ok s sv SlEval (w ++ [cl]).
-  Hypothesis Hsg : no_setgid_parent_follow s sv (w ++ [cl]).
   Notation p := (abs_path (w ++ [cl])).
   Notation v := (sv_view sv).
 
@@ -948,7 +973,7 @@ Section WriteFile.
     unfold write_file, go_write_file. rewrite (open_wct _ _ _ _ _ (abs_path_nonempty _)). cbv zeta.
     unfold k_open. change (decode_flags (O_WRONLY + O_CREATE + O_TRUNC)) with (OF 1 true false true false).
     cbv iota beta zeta. change (negb (N.eqb (N.land (acc_mask 1 true) 2) 0)) with true.
-    change (acc_mask 1 true) with 2%N. cbn [andb negb orb]. rewrite Hpm. unfold no_setgid_parent_follow in Hsg.
+    change (acc_mask 1 true) with 2%N. cbn [andb negb orb]. rewrite Hpm.
     set (r := search_node s v p SlEval) in *.
     destruct Hcase as [(E1 & e0 & E2)|(par0 & ->)].
     { (* the walk to the parent fails: so does the following walk, with the same errno *)
@@ -976,11 +1001,8 @@ Section WriteFile.
       rewrite (admin_perm_on s sv par _ H) by (apply node_is_dir_valid; exact F2).
       rewrite (admin_kperm s sv par 3 H) by (apply node_is_dir_valid; exact F2). cbn [negb].
       destruct (node_is_dir_get _ _ F2) as (chp & mp & Hgp).
-      unfold create_file, alloc_child, kmeta, new_meta, new_owner_gid.
-      rewrite (Hsg _ _ _ eq_refl), (sh_os _ _ H). cbn [file_mode andb].
-      set (x := NFile [] 1 (f_last_id s + 1)
-                  {| m_mode := N.lor 0 (N.ldiff (N.land perm FILE_MODE_MASK) (v_umask v));
-                     m_uid := us_uid (v_user v); m_gid := us_gid (v_user v) |}).
+      rewrite create_file_alloc by exact (sh_os _ _ H). unfold alloc_child. cbv iota beta.
+      set (x := NFile [] 1 (f_last_id s + 1) (kmeta (f_heap s) par v 0 (N.land perm FILE_MODE_MASK) false)).
       pose proof (get_alloc_new (f_heap s) par name x chp mp Hgp) as Hnew.
       set (s1 := {| f_heap := add_child (f_heap s ++ [x]) par name (length (f_heap s));
                     f_last_id := (f_last_id s + 1)%N; f_vols := f_vols s |}) in *.
@@ -1155,7 +1177,6 @@ Section OpenWct.
   Hypothesis H : step_hyps s sv.
   Hypothesis Hp0 : path_ok s sv SlLstat (w ++ [cl]).
   Hypothesis Hp : path_ok s sv SlEval (w ++ [cl]).
-  Hypothesis Hsg : no_setgid_parent_follow s sv (w ++ [cl]).
   Notation p := (abs_path (w ++ [cl])).
   Notation v := (sv_view sv).
 
@@ -1173,7 +1194,7 @@ Section OpenWct.
     rewrite (open_wct _ _ _ _ _ (abs_path_nonempty _)). cbv zeta.
     unfold k_open. change (decode_flags WCT) with (OF 1 true false true false).
     cbv iota beta zeta. change (negb (N.eqb (N.land (acc_mask 1 true) 2) 0)) with true.
-    change (acc_mask 1 true) with 2%N. cbn [andb negb orb]. rewrite Hpm. unfold no_setgid_parent_follow in Hsg.
+    change (acc_mask 1 true) with 2%N. cbn [andb negb orb]. rewrite Hpm.
     set (r := search_node s v p SlEval) in *.
     destruct Hcase as [(E1 & e0 & E2)|(par0 & ->)].
     { rewrite <- E1, E2 in R. rewrite E2. cbn [walk_rel] in R. destruct R as (R1 & R2).
@@ -1193,8 +1214,7 @@ Section OpenWct.
       rewrite R1, V2, R3, V1, F1. cbn [is_file_exists is_not_exist negb andb orb].
       rewrite (admin_perm_on s sv par _ H) by (apply node_is_dir_valid; exact F2).
       rewrite (admin_kperm s sv par 3 H) by (apply node_is_dir_valid; exact F2). cbn [negb].
-      unfold create_file, alloc_child, kmeta, new_meta, new_owner_gid.
-      rewrite (Hsg _ _ _ eq_refl), (sh_os _ _ H). cbn [file_mode andb]. osim.
+      rewrite create_file_alloc by exact (sh_os _ _ H). osim.
     - destruct R.
     - destruct R as (R1 & R2). destruct (werr_cases _ _ R1 Hnf) as (Hc & ->).
       destruct Hc as [Hc|[Hc|[Hc|Hc]]]; rewrite Hc in *; try osim.
@@ -1236,15 +1256,14 @@ Definition covered (vi : nat) (sw : sworld) (c : call) : Prop :=
   | CTruncate vi' p _ => vi' = vi /\ exists cs, p = abs_path cs /\ path_ok s sv SlEval cs
   | CMkdir vi' p _ =>
       vi' = vi /\ exists w cl, p = abs_path (w ++ [cl]) /\ path_ok s sv SlLstat (w ++ [cl])
-                               /\ no_setgid_parent s sv (w ++ [cl])
   | CSymlink vi' t p =>
       vi' = vi /\ t = clean Linux t /\
-      exists w cl, p = abs_path (w ++ [cl]) /\ path_ok s sv SlLstat (w ++ [cl]) /\ no_setgid_parent s sv (w ++ [cl])
+      exists w cl, p = abs_path (w ++ [cl]) /\ path_ok s sv SlLstat (w ++ [cl])
   | COpenFile vi' p flag _ =>
       vi' = vi /\
       ((flag = 0%N /\ exists cs, p = abs_path cs /\ path_ok s sv SlEval cs)
        \/ (flag = WCT /\ exists w cl, p = abs_path (w ++ [cl]) /\ path_ok s sv SlLstat (w ++ [cl])
-                                       /\ path_ok s sv SlEval (w ++ [cl]) /\ no_setgid_parent_follow s sv (w ++ [cl])))
+                                       /\ path_ok s sv SlEval (w ++ [cl])))
   | CRemove vi' p =>
       vi' = vi /\ sym_single (f_heap s) /\ exists w cl, p = abs_path (w ++ [cl]) /\ path_ok s sv SlLstat (w ++ [cl])
   | CLink vi' o p =>
@@ -1261,7 +1280,7 @@ Definition covered (vi : nat) (sw : sworld) (c : call) : Prop :=
         /\ klookup s sv false false (abs_path (wn ++ [cln])) = WNeg np cln md
   | CWriteFile vi' p _ _ =>
       vi' = vi /\ exists w cl, p = abs_path (w ++ [cl]) /\ path_ok s sv SlLstat (w ++ [cl])
-                               /\ path_ok s sv SlEval (w ++ [cl]) /\ no_setgid_parent_follow s sv (w ++ [cl])
+                               /\ path_ok s sv SlEval (w ++ [cl])
   | _ => False
   end.
 
@@ -1414,16 +1433,16 @@ Proof.
   intros Ha (H & Hc). pose proof Ha as (Hfs & Hv).
   destruct c; try (destruct Hc; fail); cbn [covered] in Hc.
   - (* Mkdir *)
-    destruct Hc as (-> & ww & cl & Ep & Hp & Hsg).
+    destruct Hc as (-> & ww & cl & Ep & Hp).
     apply (world_of_lift w vi sw _ (mkdir (w_fs w) (sv_view (sw_sv sw)) p perm) (k_mkdir (sw_fs sw) (sw_sv sw) p perm) Ha).
     + apply (impl_lift w _ _ (wstep_mkdir w vi _ Hv p perm)); [left; discriminate|exact I].
     + apply spec_mkdir.
-    + rewrite <- Hfs, Ep. exact (step_mkdir (sw_fs sw) (sw_sv sw) ww cl perm H Hp Hsg).
+    + rewrite <- Hfs, Ep. exact (step_mkdir (sw_fs sw) (sw_sv sw) ww cl perm H Hp).
   - (* OpenFile *)
-    destruct Hc as (-> & [(-> & cs & Ep & Hp)|(-> & ww & cl & Ep & Hp0 & Hp & Hsg)]); apply (world_open w vi sw _ _ _ Ha);
+    destruct Hc as (-> & [(-> & cs & Ep & Hp)|(-> & ww & cl & Ep & Hp0 & Hp)]); apply (world_open w vi sw _ _ _ Ha);
       rewrite <- Hfs, Ep.
     + exact (step_open_rdonly (sw_fs sw) (sw_sv sw) vi cs perm H Hp).
-    + exact (step_open_wct (sw_fs sw) (sw_sv sw) vi ww cl perm H Hp0 Hp Hsg).
+    + exact (step_open_wct (sw_fs sw) (sw_sv sw) vi ww cl perm H Hp0 Hp).
   - (* Remove *)
     destruct Hc as (-> & Hss & ww & cl & Ep & Hp).
     apply (world_of_lift w vi sw _ (remove (w_fs w) (sv_view (sw_sv sw)) p) (go_remove (sw_fs sw) (sw_sv sw) p) Ha).
@@ -1443,11 +1462,11 @@ Proof.
     + apply spec_link.
     + rewrite <- Hfs, Eo, Ep. exact (step_link (sw_fs sw) (sw_sv sw) co ww cl H Hpo Hp Hns).
   - (* Symlink *)
-    destruct Hc as (-> & Ht & ww & cl & Ep & Hp & Hsg).
+    destruct Hc as (-> & Ht & ww & cl & Ep & Hp).
     apply (world_of_lift w vi sw _ (symlink (w_fs w) (sv_view (sw_sv sw)) o n) (k_symlink (sw_fs sw) (sw_sv sw) o n) Ha).
     + apply (impl_lift w _ _ (wstep_symlink w vi _ Hv o n)); [left; discriminate|exact I].
     + apply spec_symlink.
-    + rewrite <- Hfs, Ep. rewrite Ht at 3. exact (step_symlink (sw_fs sw) (sw_sv sw) ww cl o H Hp Hsg).
+    + rewrite <- Hfs, Ep. rewrite Ht at 3. exact (step_symlink (sw_fs sw) (sw_sv sw) ww cl o H Hp).
   - (* Readlink *)
     destruct Hc as (-> & cs & Ep & Hp).
     apply (world_of_ro w vi sw _ (readlink (w_fs w) (sv_view (sw_sv sw)) p) (k_readlink (sw_fs sw) (sw_sv sw) p) Ha).
@@ -1511,12 +1530,12 @@ Proof.
     + apply spec_read_file.
     + rewrite <- Hfs, Ep, (step_read_file (sw_fs sw) (sw_sv sw) cs H Hp). apply obs_sim_refl.
   - (* WriteFile *)
-    destruct Hc as (-> & ww & cl & Ep & Hp0 & Hp & Hsg).
+    destruct Hc as (-> & ww & cl & Ep & Hp0 & Hp).
     apply (world_of_lift w vi sw _ (write_file (w_fs w) (sv_view (sw_sv sw)) p data perm)
              (go_write_file (sw_fs sw) (sw_sv sw) p data perm) Ha).
     + apply (impl_lift w _ _ (wstep_write_file w vi _ Hv p data perm)); [left; discriminate|exact I].
     + apply spec_write_file.
-    + rewrite <- Hfs, Ep. exact (step_write_file (sw_fs sw) (sw_sv sw) ww cl data perm H Hp0 Hp Hsg).
+    + rewrite <- Hfs, Ep. exact (step_write_file (sw_fs sw) (sw_sv sw) ww cl data perm H Hp0 Hp).
 Qed.
 
 (* ---- histories ------------------------------------------------------------------------------------------------------- *)
@@ -1626,8 +1645,7 @@ Module StepExamples.
     - exists [s_d; s_up]. split; [reflexivity|path_ok_tac].
     - exists [s_abs; s_f]. split; [reflexivity|path_ok_tac].
     - exists [s_d; s_e; s_top]. split; [reflexivity|path_ok_tac].
-    - exists [s_d; s_e; s_top; s_e], s_x. split; [reflexivity|]. split; [path_ok_tac|].
-      intros par name md HK. vm_compute in HK. injection HK as <- _ _. reflexivity.
+    - exists [s_d; s_e; s_top; s_e], s_x. split; [reflexivity|path_ok_tac].
   Qed.
 
   (* what the two runs answer (computed): the same, and the new directory is there *)
